@@ -128,7 +128,7 @@ func runC05(c *Ctx) {
 			return false
 		}
 		for _, ce := range b2.CondEdges() {
-			if _, m := ana.MatchAny(ce.Lit, "call<*>(ext#2(next(range(p0))))", "call<*>(index(p0, ind<+1>(0)))"); m {
+			if _, m := ana.MatchAny(ce.Lit, "call<*>(ext#2(next(range(p0))))", "call<*>(index(p0, ind<+1>(0)))", "call<*>(conv<rune>(index(p0, ind<+1>(0))))"); m {
 				if h := calleeOf(ce.Lit); h != nil && runeHelperASCII(c, h) && forAll(b2, *l, ce.Lit.String()) {
 					return true
 				}
@@ -137,7 +137,7 @@ func runC05(c *Ctx) {
 		return false
 	})
 	rejPats := append([]string{"bin<<>(len(p0), 1)", "bin<<=>(len(p0), 0)",
-		"un<!>(call<*>(ext#2(next(range(p0)))))", "un<!>(call<*>(index(p0, ind<+1>(0))))"}, caseReject("*", caseIdx)...)
+		"un<!>(call<*>(ext#2(next(range(p0)))))", "un<!>(call<*>(index(p0, ind<+1>(0))))", "un<!>(call<*>(conv<rune>(index(p0, ind<+1>(0)))))"}, caseReject("*", caseIdx)...)
 	rejects := c.rejectEdges(b, rejPats...)
 	rejects = append(rejects, rejLen...)
 	avoid := ana.ReachableAvoiding(fn, rejects)
